@@ -279,7 +279,7 @@ def main(prop, rule, targets):
     res = Result(prop, a.tier, a.seed)
     if a.replay:
         return replay(res, prop, a.replay)
-    step_translate(res, ['ordered'])
+    step_translate(res, ['ordered', 'arith_ordered', 'arith_unord_array', 'arith_unord_map', 'arith_rec_map'])
     step_proofs(res, prop, targets)
     if a.tier == 'thorough':
         coqchk(res, [f'Props.{prop}'])
